@@ -98,6 +98,66 @@ Theorem C20_move_and_swap_carry_pool : forall st, inv st ->
 Proof. exact move_and_swap_carry_pool. Qed.
 Print Assumptions C20_move_and_swap_carry_pool.
 
+(* Construction from an rvalue allocator (what every libstdc++ node container does with its node allocator
+   in its move constructor, and std::swap with its temporary) is a COPY: no move constructor is declared.
+   The source keeps its pool and stays usable, the new allocator shares the pool, use_count + 1. *)
+Theorem C20_move_construction_is_copy : forall st h, inv st -> handle_ok st h = true ->
+  step st (OpMove h) = step st (OpCopy h) /\
+  exists st1 ob, step st (OpMove h) = Ok (st1, ob) /\ inv st1 /\ same_mem st st1 /\
+    handles st1 h = handles st h /\
+    handles st1 (nhandles st) = mkHandle true (hpool (handles st h)) (hvt (handles st h)) /\
+    prefs (pools st1 (hpool (handles st h))) = S (prefs (pools st (hpool (handles st h)))).
+Proof. exact move_construction_is_copy. Qed.
+Print Assumptions C20_move_construction_is_copy.
+
+(* Move assignment (operator=) by the LAST owner of the destination's old, block-free pool: the old pool
+   is destroyed and returns all its buffers plus the control block; the destination now shares the source's
+   pool, which is unchanged except for use_count + 1; all blocks, all other pools and every cache are
+   unchanged; the source's deallocation rights carry over to the destination. *)
+Theorem C20_assign_last_owner_carry : forall st hd hs, inv st -> proto_ok st (OpAssign hd hs) = true ->
+  hpool (handles st hd) <> hpool (handles st hs) -> prefs (pools st (hpool (handles st hd))) = 1%nat ->
+  let pd := hpool (handles st hd) in let ps := hpool (handles st hs) in
+  exists st1 ob, step st (OpAssign hd hs) = Ok (st1, ob) /\ inv st1 /\
+    handles st1 hd = mkHandle true ps (hvt (handles st hd)) /\ (forall k, k <> hd -> handles st1 k = handles st k) /\
+    palive (pools st1 pd) = false /\ pool_out (pools st1 pd) = 0%nat /\
+    o_allocs ob = 0%nat /\ o_frees ob = S (pheld (pools st pd)) /\
+    pools st1 ps = mkPool (pparams (pools st ps)) (pcount (pools st ps)) (S (prefs (pools st ps))) (pheld (pools st ps)) (palive (pools st ps)) /\
+    palive (pools st ps) = true /\
+    (forall q, q <> pd -> q <> ps -> pools st1 q = pools st q) /\
+    (forall b, blocks st1 b = blocks st b) /\ nblocks st1 = nblocks st /\ (forall q, cached st1 q = cached st q) /\
+    (forall b n s, proto_ok st (OpDealloc hs b n s) = true -> proto_ok st1 (OpDealloc hd b n s) = true).
+Proof. exact assign_last_owner_carry. Qed.
+Print Assumptions C20_assign_last_owner_carry.
+
+(* Exception guarantee of allocate() when the base allocator throws: no block is handed out; blocks,
+   allocator objects, other pools unchanged; GetAllocateCount, use_count, liveness of every pool unchanged;
+   a pool with outstanding blocks keeps its parameters and cache (an IDLE pool of other parameters has
+   already been re-parameterised by line 119); invariant kept; base allocator balanced. *)
+Theorem C20_alloc_failure_guarantee : forall st h n grow, inv st -> proto_ok st (OpAllocFail h n grow) = true ->
+  exists st' ob, step st (OpAllocFail h n grow) = Ok (st', ob) /\ inv st' /\
+    o_dest ob = None /\ nblocks st' = nblocks st /\ (forall b, blocks st' b = blocks st b) /\
+    nhandles st' = nhandles st /\ (forall k, handles st' k = handles st k) /\ npools st' = npools st /\
+    (forall q, pcount (pools st' q) = pcount (pools st q) /\ prefs (pools st' q) = prefs (pools st q) /\
+               palive (pools st' q) = palive (pools st q) /\
+               (pcount (pools st q) <> 0%nat -> pparams (pools st' q) = pparams (pools st q) /\ cached st' q = cached st q) /\
+               (q <> hpool (handles st h) -> pools st' q = pools st q /\ cached st' q = cached st q)) /\
+    (outstanding st' + o_frees ob = outstanding st + o_allocs ob)%nat.
+Proof. exact alloc_failure_guarantee. Qed.
+Print Assumptions C20_alloc_failure_guarantee.
+
+(* Re-parameterising an IDLE pool whose cache still holds freed blocks of the old parameter set (line 119):
+   the old MemPool (buffers and parked blocks) is gone; the new one has the requested parameters, an EMPTY
+   cache, count 1 and only the buffers obtained by this call. *)
+Theorem C20_reparam_forgets_cache : forall st h grow,
+  let p := hpool (handles st h) in let P := pools st p in
+  params_eqb (get_params (hvt (handles st h))) (pparams P) = false -> pcount P = 0%nat ->
+  exists st' ob, step st (OpAlloc h 1 grow) = Ok (st', ob) /\
+    cached st' p = 0%nat /\ pools st' p = mkPool (get_params (hvt (handles st h))) 1 (prefs P) grow (palive P) /\
+    o_reparam ob = true /\ o_frees ob = pheld P /\ o_allocs ob = grow /\
+    o_dest ob = Some (Pooled (get_params (hvt (handles st h)))).
+Proof. exact reparam_forgets_cache. Qed.
+Print Assumptions C20_reparam_forgets_cache.
+
 (* The invariant used above is not vacuous: it holds initially and is preserved by every protocol- and
    H-respecting operation (which never gets stuck, routes correctly and balances the base allocator). *)
 Theorem C20_invariant_step : forall st o, inv st -> proto_ok st o = true -> h_ok st o = true ->
